@@ -88,7 +88,8 @@ namespace cdsv {
         template <class R>
         typename std::enable_if<!std::is_void<R>::value, bool>::type do_get( int key, int64_t& seen )
         {
-            typename Set::raw_ptr rp;
+            typedef decltype( std::declval<Set&>().get( 0 )) raw_ptr_t;    // raw_ptr adaptor or plain value_type*
+            raw_ptr_t rp = raw_ptr_t();
             bool found = false;
             {
                 typename R::scoped_lock l;
